@@ -156,11 +156,15 @@ Lemma p_switch_loop_eq : forall n c cases def ps, p_switch_loop inp (S n) c case
       p_switch_loop inp n c (cases ++ [Case cc body]) def s
     else RErr s
   else if typ_is t KeywordDefault then
-    pb (k, s) <- ppeek inp s;
-    if typ_is k ItemColon then
-      pb (body, s) <- p_case_body inp n s;
-      p_switch_loop inp n c cases body s
-    else RErr s
+    match def with
+    | Block _ => RErr s
+    | BNil =>
+        pb (k, s) <- ppeek inp s;
+        if typ_is k ItemColon then
+          pb (body, s) <- p_case_body inp n s;
+          p_switch_loop inp n c cases body s
+        else RErr s
+    end
   else RErr s.
 Proof. reflexivity. Qed.
 Lemma p_case_body_eq : forall n ps, p_case_body inp (S n) ps =
